@@ -7,12 +7,12 @@ CONSTANTS
   MaxOps = 4
   Versioned = TRUE
   Timer = FALSE
-  AllowRevoke = FALSE
+  AllowRevoke = TRUE
   AllowPublish = TRUE
   SplitTrack = TRUE
   AsCoded = {}
   Replay = FALSE
 VIEW View
-INVARIANTS TypeOK VersionConsistent C25_Epoch 
+INVARIANTS TypeOK VersionConsistent C25_Epoch HubHasEntry
 PROPERTIES C25_Frames 
 CHECK_DEADLOCK FALSE
